@@ -425,6 +425,17 @@ class Engine:
         self.paths += npaths
         return npaths
 
+    def ghost_module(self, c):
+        """ghost client code sees the names of the module given by `c.note` ("module: path.py") or builtins only"""
+        rel = getattr(c, "ghost_scope", None)
+        if rel:
+            return self.repo.module(rel)
+
+        class _M:
+            names = {}
+            rel = "<ghost>"
+        return _M()
+
     def _params_init(self, c, fr):
         for name, ty in c.params.items():
             fr.env[name] = self.fresh_of(name, ty)
@@ -434,6 +445,8 @@ class Engine:
             cd = CLASSES[ty.cls]
             fields = {}
             for f, fty in cd.fields.items():
+                if fty == TAny:
+                    continue
                 fields[f] = self.fresh_of(name + "." + f, fty, assume_inv)
             r = self.alloc(("obj", cd, fields))
             if assume_inv:
@@ -476,10 +489,7 @@ class Engine:
             node = ast.parse(c.body).body[0]
             clsnode = None
 
-            class _M:
-                names = {}
-                rel = "<ghost>"
-            mod = _M()
+            mod = self.ghost_module(c)
         else:
             node, mod, clsnode = self.repo.find(key)
         fr = Frame(key, mod, clsnode, c, {})
@@ -996,6 +1006,10 @@ class Engine:
             raise PathEnd()
         for nm in spec.get("export_it", []):
             fr.env[nm] = it
+        e = dict(fr.env)
+        e["it"] = it
+        for (ln, exprs) in spec.get("exit_hints", []):
+            self.add_hint(ln, exprs, e)
 
     def iter_desc(self, v, fr, node):
         """value -> IterDesc"""
@@ -1178,6 +1192,10 @@ class Engine:
         # exit: it == n ; loop variable keeps its last value (not modelled unless n>0) -> remove binding
         for t in tnames:
             fr.env.pop(t, None)
+        e = dict(fr.env)
+        e.update(head_env(it))
+        for (ln, exprs) in spec.get("exit_hints", []):
+            self.add_hint(ln, exprs, e)
 
     # ------------------------------------------------------------------ assignment
     def assign(self, target, v, fr):
